@@ -12,6 +12,7 @@ import (
 	"os"
 	"path/filepath"
 	"sort"
+	"strings"
 
 	"github.com/google/uuid"
 	"github.com/semafind/semadb/conversion"
@@ -562,7 +563,42 @@ func worker(raw json.RawMessage) (json.RawMessage, error) {
 			}
 		}
 		res.Nontriv += int64(len(fam))
-		res.Sample = map[string]any{"family": "all strings of length<=4 over {00,A,a,b,7f,80,ff}", "size": len(fam)}
+		// long strings: a value may be as long as the plan's point size allows (no
+		// key-size ceiling is part of the encoding).  For every length 2^k-1, 2^k,
+		// 2^k+1 (k = 5..20): the constant string, its sibling that differs in the
+		// LAST byte only, and its extension by one byte - they share a prefix of
+		// length-1 bytes, so any encoder that looks at a bounded part of the value
+		// merges or misorders them
+		for k := 5; k <= 20; k++ {
+			for d := -1; d <= 1; d++ {
+				L := 1<<uint(k) + d
+				base := strings.Repeat("a", L)
+				trio := []string{base[:L-1] + "A", base, base + "a"} // ascending
+				var keys [][]byte
+				for _, v := range trio {
+					kk, err := inverted.VerifToByteSortable(v)
+					if err != nil {
+						res.v("long-string-encode-error", "length %d: %v", len(v), err)
+						continue
+					}
+					var back string
+					if err := inverted.VerifFromByteSortable(kk, &back); err != nil || back != v {
+						res.v("long-string-roundtrip", "a string of %d bytes decodes to one of %d bytes (err %v)", len(v), len(back), err)
+					}
+					keys = append(keys, append([]byte{}, kk...))
+					res.Evals++
+				}
+				for i := 1; i < len(keys); i++ {
+					if c := bytes.Compare(keys[i-1], keys[i]); c == 0 {
+						res.v("long-string-key-collision", "two different strings of %d and %d bytes share a key", len(trio[i-1]), len(trio[i]))
+					} else if c > 0 {
+						res.v("long-string-order", "strings of %d and %d bytes: value order and key order differ", len(trio[i-1]), len(trio[i]))
+					}
+				}
+				res.Nontriv += 3
+			}
+		}
+		res.Sample = map[string]any{"family": "all strings of length<=4 over {00,A,a,b,7f,80,ff}; long strings of length 2^k+{-1,0,1}, k=5..20, in trios that differ only in or after the last byte", "size": len(fam)}
 	case "termkeys":
 		// the marker bytes of the text-index keys ('t' ... 's' for terms, 'd' for
 		// documents) are themselves legal term bytes: every string of length <= 5
@@ -794,7 +830,7 @@ func seq(a, b int) []int {
 }
 
 func master(cfg *harness.Config, rep *harness.Report) {
-	rep.Rule = "families: int64 ±2^k+δ (k<64,|δ|<=2) with all pairs; float64 all 2046 exponents x sign x 4 mantissa corners + zeros, subnormals, infinities in value order (adjacent pairs => all pairs by transitivity); all strings of length<=4 over 7 bytes; text-index term keys for all terms of length<=5 over the key marker bytes {t,s,d,a,00,ff} and the decoder on all candidate keys of length<=6; boundary uint64 ids x all 256 key suffixes; boundary uuids x 256 suffixes; edge lists of length 0..64 and 4096; float32 bit patterns (quick: 2^20 patterns with stride 4096 covering every sign/exponent and 12 mantissa bits, thorough: all 2^32) packed into vectors, plus one vector of every length 1..4096; each decoded from the encoder's buffer and from copies at every source offset 0..7; all range/prefix scans over 15-value numeric families, all strings of length<=2 over 7 bytes and a string family that is not prefix-closed (lengths 1 and 3 over 3 bytes) on memstore and bbolt, with bounds that are stored keys and bounds that are not (prefixes of keys, keys extended by 00, predecessors); thorough adds all int64 of the form v<<s (v any int32, s in {0,31}) and every non-NaN float32 widened to float64. non-trivial = sign/exponent boundary crossed between neighbours, proper sub-range scans, distinct ids"
+	rep.Rule = "families: int64 ±2^k+δ (k<64,|δ|<=2) with all pairs; float64 all 2046 exponents x sign x 4 mantissa corners + zeros, subnormals, infinities in value order (adjacent pairs => all pairs by transitivity); all strings of length<=4 over 7 bytes; long strings of every length 2^k+{-1,0,1} (k=5..20) in trios that differ only in or after their last byte (round trip, distinct keys, order); text-index term keys for all terms of length<=5 over the key marker bytes {t,s,d,a,00,ff} and the decoder on all candidate keys of length<=6; boundary uint64 ids x all 256 key suffixes; boundary uuids x 256 suffixes; edge lists of length 0..64 and 4096; float32 bit patterns (quick: 2^20 patterns with stride 4096 covering every sign/exponent and 12 mantissa bits, thorough: all 2^32) packed into vectors, plus one vector of every length 1..4096; each decoded from the encoder's buffer and from copies at every source offset 0..7; all range/prefix scans over 15-value numeric families, all strings of length<=2 over 7 bytes and a string family that is not prefix-closed (lengths 1 and 3 over 3 bytes) on memstore and bbolt, with bounds that are stored keys and bounds that are not (prefixes of keys, keys extended by 00, predecessors); thorough adds all int64 of the form v<<s (v any int32, s in {0,31}) and every non-NaN float32 widened to float64. non-trivial = sign/exponent boundary crossed between neighbours, proper sub-range scans, distinct ids"
 	rep.Assumptions = []string{"values outside the families (most int64/float64 bit patterns) are covered only in the thorough sweeps stated in the rule", "native little-endian machine: the raw float32 codec is the one selected at init"}
 	var jobs []json.RawMessage
 	add := func(j job) {
